@@ -1,4 +1,4 @@
 CONSTANTS A = {71, 0, 16, 5, 31} MaxLen = 6
 SPECIFICATION Spec
-INVARIANTS Refines Tracks Terminates
+INVARIANTS Refines Tracks Terminates Idempotent
 CHECK_DEADLOCK FALSE
